@@ -274,6 +274,21 @@ func treeMutations(f *family, g *genuineMsg, r *prng.R, other *genuineMsg) []mut
 	add("s.append.trunc", append(append([]byte(nil), g.msg...), 0xc4, 0x05, 0x01))
 	add("s.append.invalid", append(append([]byte(nil), g.msg...), 0xc1))
 	add("s.append.self", append(append([]byte(nil), g.msg...), g.msg...))
+	// block-shaped objects BEHIND the final packet whose payload differs from the final one: whatever the receiver
+	// does to detect trailing data must not disturb what it has verified but not yet released
+	if np >= 2 {
+		add("s.append.first", joinMsg(hdrObj, append(append([][]byte(nil), packets...), packets[0])))
+		add("s.append.all", joinMsg(hdrObj, append(append([][]byte(nil), packets...), packets...)))
+	}
+	if last, _, err := mpParse(packets[np-1]); err == nil && last != nil && last.K == mvArr {
+		q := last.clone()
+		for _, e := range q.Arr {
+			if (e.K == mvBin || e.K == mvStr) && len(e.Data) > 0 {
+				e.Data = r.Bytes(len(e.Data))
+			}
+		}
+		add("s.append.block", joinMsg(hdrObj, append(append([][]byte(nil), packets...), mpEncode(q))))
+	}
 	add("s.hdrtwice", joinMsg(append(append([]byte(nil), hdrObj...), hdrObj...), packets))
 	if other != nil {
 		oh, _, op, _ := splitMsg(other.msg)
@@ -287,6 +302,8 @@ func treeMutations(f *family, g *genuineMsg, r *prng.R, other *genuineMsg) []mut
 			sp[np-1] = op[len(op)-1]
 			add("x.splicelast", joinMsg(hdrObj, sp))
 			add("x.append", joinMsg(hdrObj, append(append([][]byte(nil), packets[:np-1]...), op...)))
+			add("x.append.last", joinMsg(hdrObj, append(append([][]byte(nil), packets...), op[len(op)-1])))
+			add("x.append.all", joinMsg(hdrObj, append(append([][]byte(nil), packets...), op...)))
 		}
 	}
 	return out
